@@ -950,6 +950,10 @@ Qed.
 
 (** ** The full theorem *)
 
+(** the public entry point of [reorder] with requests disabled *)
+Lemma reorder_pub_off o s : last_len s = None → reorder_pub o s = reorder o s.
+Proof. intros H. unfold reorder_pub, guarded. cbn [bind get]. by rewrite H. Qed.
+
 (** the bit assignment induced by an integer assignment, by variable NAME:
     bit [b] of the integer variable at level [j] gets the value that
     [_enumerate_integer] gives it in dict number [I j] *)
@@ -1008,7 +1012,12 @@ Proof.
   rewrite (bind_ok _ _ _ _ _ Hbits) in Hrun.
   change (imap (fun k b => (b, k)) (concat (omap (bits_at dvars) (seq 0 (length dvars)))))
     with (b2m_b2s dvars) in Hrun.
-  rewrite (bind_ok _ _ _ _ _ Eg), (bind_ok _ _ _ _ _ Er) in Hrun.
+  assert (Hoff1 : last_len s1 = None).
+  { pose proof Eg as Eg'.
+    apply (gc_safe None s L) in Eg' as (_&_&_&_&_&_&(E&_)&_&_); [|done|done|done]. by rewrite E. }
+  assert (Erp : reorder_pub (Some (list_to_map (b2m_b2s dvars))) s1 = (Ok tt, s2))
+    by (by rewrite reorder_pub_off).
+  rewrite (bind_ok _ _ _ _ _ Eg), (bind_ok _ _ _ _ _ Erp) in Hrun.
   destruct (decide (b2m_order_ok order s2)) as [Hord|Hord].
   - destruct (bdd_to_mdd_tail_total dvars s2 L order HI2 HC2 Hoff2 Hnz2 HL1 Hdw2 Hv2 Hwf2 Hord)
       as (mdd&umap&Etail&HB&Hheld).
